@@ -113,6 +113,23 @@ func (p *c01) Init(tier string, seed int64) {
 			return w[0] + m + w[1]
 		})
 	}
+	// (ii') every ordered pair (and, thorough, triple) of statements, each tag in several argument forms: what one
+	// tag leaves behind in the parser (the parent, the block table, the macro table) meets every other tag
+	{
+		st := c01Statements()
+		n := len(st)
+		tot := n * n
+		if p.thorough() {
+			tot += n * n * n
+		}
+		p.add("stmt-seq", tot, func(i int) string {
+			if i < n*n {
+				return st[i/n] + st[i%n]
+			}
+			i -= n * n
+			return st[i/(n*n)] + "x" + st[(i/n)%n] + "\n" + st[i%n]
+		})
+	}
 	// (iii) bounded-exhaustive fragment sequences
 	{
 		maxL := p.pick(3, 5)
@@ -286,6 +303,23 @@ func (p *c01) Init(tier string, seed int64) {
 			return strings.Repeat(l.open, d) + l.mid + strings.Repeat(l.close, d)
 		})
 	}
+}
+
+// c01Statements: every tag with its argument written as a literal, a name, a compound expression and an
+// interpolated string; complete statements, and some that are cut off or malformed.
+func c01Statements() []string {
+	args := []string{"'a'", "layout", "c ? 'a' : 'b'", `"#{theme}/base"`, "['a', 'b']", "(x)", "{a: 1}", "a.b(1)", "a|f", "-1", ""}
+	var out []string
+	for _, a := range args {
+		out = append(out, "{% extends "+a+" %}", "{% include "+a+" %}", "{% include "+a+" with "+a+" only %}", "{% embed "+a+" %}{% block b %}e{% endblock %}{% endembed %}",
+			"{% use "+a+" %}", "{% use "+a+" with b as c %}", "{% import "+a+" as m %}", "{% from "+a+" import m as n %}", "{% set v = "+a+" %}", "{% do "+a+" %}", "{{ "+a+" }}",
+			"{% if "+a+" %}i{% elseif "+a+" %}j{% else %}k{% endif %}", "{% for k, v in "+a+" if "+a+" %}f{% else %}g{% endfor %}")
+	}
+	out = append(out, "{% block b %}B{% endblock %}", "{% block b %}{{ parent() }}{% endblock b %}", "{% block c %}{% block b %}{% endblock %}{% endblock %}", "{% block b 'short' %}",
+		"{% macro m(a, b) %}M{% endmacro %}", "{% macro m() %}{{ _self.m() }}{% endmacro m %}", "{% set v %}cap{% endset %}", "{% filter f|g(1) %}F{% endfilter %}",
+		"{% verbatim %}{{ x {% endverbatim %}", "{# c #}", "{{ block('b') }}", "{{ _self.m(1) }}", "{{ m.n(1) }}", "text", "{% endblock %}", "{% endif %}", "{% else %}", "{% endembed %}",
+		"{% extends", "{% block b %}", "{% embed 'a' %}", "{% macro m(", "{{ \"#{", "{% unknown %}")
+	return out
 }
 
 func searchOffs(offs []int, i int) int {
